@@ -61,8 +61,8 @@ def main(argv=None):
         seed = 0
     try:
         mod = importlib.import_module("cmiv.rules." + pid.lower())
-    except ImportError as e:
-        print("no check for property %s: %s" % (pid, e), file=sys.stderr)
+    except Exception as e:
+        print("ANALYSIS-BROKEN property=%s: cannot load the check: %r" % (pid, e), file=sys.stderr)
         return 2
     chk = report.Check(pid, a.tier, getattr(mod, "LEVEL", LEVELS.get(pid, "other")), seed)
     if os.environ.get("CMIV_TRACE_AFTER"):
